@@ -11,6 +11,11 @@
           scratch copy, and the check must report a violation the unmodified
           tree does not have.  A control that is missed means the verdict
           "holds" cannot be trusted: ANALYSIS-ERROR (exit 2), never a pass.
+ NEUTRAL  every recorded behaviour-preserving refactoring of this property
+          (neutral/<id>*/patch.diff, written by independent agents, baseline
+          suite passing) that still applies is applied to a scratch copy and must
+          add no violation: a checker that alarms on an equivalent program is as
+          untrustworthy as one that misses its controls.
 
 Everything is static: the twins and the scratch copies are parsed, never
 imported or run.  Scratch directories live under the system temp dir and are
@@ -85,17 +90,32 @@ def extend(prop, rep):
             seeds.append(d)
         except ValueError:
           pass
+  neutrals = []
+  nd = core.VERIF / 'neutral'
+  if nd.exists():
+    for d in sorted(nd.iterdir()):
+      meta = d / 'meta.json'
+      if (d / 'patch.diff').exists() and meta.exists():
+        try:
+          if json.loads(meta.read_text()).get('property') == prop:
+            neutrals.append(d)
+        except ValueError:
+          pass
   jobs = [('unparse', prop, repo_pkg, None), ('rename', prop, repo_pkg, None),
           ('reorder', prop, repo_pkg, None)] + [
-      ('control', prop, repo_pkg, str(d / 'patch.diff')) for d in seeds]
+      ('control', prop, repo_pkg, str(d / 'patch.diff')) for d in seeds] + [
+      ('neutral', prop, repo_pkg, str(d / 'patch.diff')) for d in neutrals]
   rep.rule('TWIN', 'the verdict is the same on behaviour-preserving twins of the '
            'tree (re-printed; locals renamed; methods reordered)', floor=0)
   rep.rule('CONTROL', 'every applicable confirmed seeded change of this property '
            'is reported on a scratch copy', floor=0)
+  rep.rule('NEUTRAL', 'every applicable behaviour-preserving refactoring recorded '
+           'for this property leaves the verdict unchanged', floor=0)
   workers = min(16, max(1, len(jobs)), os.cpu_count() or 1)
   with cf.ProcessPoolExecutor(max_workers=workers) as ex:
     results = list(ex.map(_worker, jobs))
   missed = []
+  false_alarms = []
   applied = 0
   for kind, patch, vio, err in results:
     if kind in ('unparse', 'rename', 'reorder'):
@@ -115,6 +135,18 @@ def extend(prop, rep):
                       'not on the tree as spelled: the twin has the same '
                       'behaviour, so the tree violates the rule as well' %
                       (r, s, kind))
+    elif kind == 'neutral':
+      name = pathlib.Path(patch).parent.name
+      if vio is None:
+        rep.note('neutral %s skipped: %s' % (name, err))
+        continue
+      extra = sorted({(r, s) for r, s, known in vio} - base)
+      if not extra:
+        rep.hold('NEUTRAL', 'neutral/%s:silent' % name, {})
+      else:
+        false_alarms.append(name)
+        rep.note('NEUTRAL ALARM: neutral/%s keeps behaviour but adds %s' % (
+            name, ['%s %s' % x for x in extra][:3]))
     else:
       name = pathlib.Path(patch).parent.name
       if vio is None:
@@ -130,8 +162,10 @@ def extend(prop, rep):
         rep.note('CONTROL MISSED: seeded/%s applies to the current tree and no '
                  'new violation is reported' % name)
   rep.unit('twins evaluated', sum(1 for k, p, v, e in results
-                                  if k != 'control' and v is not None))
+                                  if k in ('unparse', 'rename', 'reorder') and v is not None))
   rep.unit('controls applied', applied)
   rep.unit('controls skipped (patch does not apply)',
            sum(1 for k, p, v, e in results if k == 'control' and v is None))
-  return missed
+  rep.unit('neutral refactorings applied',
+           sum(1 for k, p, v, e in results if k == 'neutral' and v is not None))
+  return missed + ['neutral/' + n for n in false_alarms]
